@@ -20,7 +20,7 @@ def run(rep, tier):
         "expected sweep computed in long double from the table; comparison 1e-10 relative to the largest entry of the result",
         "energy-norm monotonicity: measured with the exact table on the second and third sweep of every sampled instance (exploration level)",
     ]
-    tabs = sc.tables(rep, tier, "c06", "abc")
+    tabs = sc.tables(rep, tier, "c06", "abcef")
     tabs = [t for t in tabs if t["nc"] >= 2 and t["nr"] - t["nc"] >= 3]
     sc.conformance(rep, tier, tabs, "smoother", 200, "smoother", threads=(1, 3, 16) if tier == "thorough" else (1, 3), scales=(1.0, 1e-9, 1e7))
     try:
